@@ -1,6 +1,7 @@
 package scan
 
 import (
+	"os"
 	"fmt"
 	"regexp"
 	"sort"
@@ -328,3 +329,5 @@ func sortedKeys[V any](m map[string]V) []string {
 	sort.Strings(ks)
 	return ks
 }
+
+func tierThorough() bool { return os.Getenv("VERIF_TIER") == "thorough" }
